@@ -215,7 +215,7 @@ pub fn job_c06(out_dir: &str, tier: &str, seed: u64) {
         }
         c
     };
-    let inputs = gen::corpus(&mut rng, if quick { 24 } else { 70 }, if quick { 2000 } else { 40000 });
+    let inputs = gen::corpus(&mut rng, if quick { 36 } else { 70 }, if quick { 5000 } else { 40000 });
     for (ii, input) in inputs.iter().enumerate() {
         let nh = if ii < 4 * gen::FRAGS.len() { 3 } else { 2 };
         for hi in 0..nh {
@@ -232,7 +232,7 @@ pub fn job_c06(out_dir: &str, tier: &str, seed: u64) {
             let cfg_h = gen::merge(h, &settings);
             let base = observation("H", &driver::run(&cfg_h, input, &[], &RunOpts::default()), &keep);
             let mut others = Vec::new();
-            for oi in 0..(if quick { 4 } else { osets.len() }) {
+            for oi in 0..(if quick { 5 } else { osets.len() }) {
                 let o = &osets[(ii + oi * 3 + hi) % osets.len()];
                 let cfg_ho = gen::merge(&concat(h, o), &settings);
                 let cs = if input.len() <= 60 && oi == 0 { gen::cut_sets(input.len(), &mut rng, 0, 1) } else { gen::light_cut_sets(input.len(), &mut rng, 1) };
